@@ -212,6 +212,8 @@ where
             }
         }
     }
+    // MC_COUNT_ONLY: enumerate without executing (used to size bounds)
+    let count_only = std::env::var("MC_COUNT_ONLY").is_ok();
     let next = AtomicUsize::new(0);
     let total = std::sync::atomic::AtomicU64::new(0);
     let nt = n_threads();
@@ -239,7 +241,9 @@ where
                                 "explorer: generator is not deterministic along a replayed prefix"
                             );
                         }
-                        visit(&mut st, case, &ch.trace);
+                        if !count_only {
+                            visit(&mut st, case, &ch.trace);
+                        }
                         count += 1;
                         if (count & 0x3ff) == 0 && stop() {
                             break;
@@ -272,10 +276,16 @@ where
 }
 
 /// Count the executions of a generator single-threaded (used to cross-check the parallel split).
+/// Above `COUNT_CAP` executions the cross-check is skipped (returns `u64::MAX`): it would cost
+/// more than the exploration it checks.
+pub const COUNT_CAP: u64 = 4_000_000;
 pub fn count_choices<T, G: Fn(&mut Chooser) -> T>(gen: G) -> u64 {
     let mut script: Vec<u32> = vec![];
     let mut n = 0u64;
     loop {
+        if n > COUNT_CAP {
+            return u64::MAX;
+        }
         let mut ch = Chooser::new(script.clone());
         let _ = gen(&mut ch);
         n += 1;
